@@ -3,12 +3,9 @@
 Tree Borrows and with Stacked Borrows, in parallel, and write one failure record per scenario
 that Miri rejects to <log_dir>/miri-failures.jsonl (picked up by ./check via `extra_cmds`).
 
-The class of a failure is computed here from the scenario and the diagnostic only:
-  miri-stacked-borrows-osu-gradual      scenario osu-*, Stacked Borrows, "trying to retag … does not
-                                        exist in the borrow stack"
-  miri-tree-borrows-osu-gradual-by-value scenario osu-{closure,byvalue,thread}, Tree Borrows,
-                                        "deallocation through … is forbidden"
-anything else has class "" (unlisted → VIOLATION).
+Every rejection has class "" (unlisted → VIOLATION): the two former classes miri-stacked-borrows-osu-gradual /
+miri-tree-borrows-osu-gradual-by-value are fixed in /repo (OsuGradualDifficulty owns its objects through a raw
+pointer), so Miri must accept every scenario under both aliasing models.
 usage: miri_hist.py <log_dir> [scenario ...]"""
 import json
 import os
@@ -26,13 +23,6 @@ MODELS = {"tree-borrows": "-Zmiri-tree-borrows -Zmiri-deterministic-floats", "st
 
 
 def classify(model, scenario, text):
-    if not scenario.startswith("osu-"):
-        return ""
-    if model == "stacked-borrows" and "trying to retag from" in text and "does not exist in the borrow stack" in text:
-        return "miri-stacked-borrows-osu-gradual"
-    if model == "tree-borrows" and scenario in ("osu-closure", "osu-byvalue", "osu-thread") \
-            and "deallocation through" in text and "is forbidden" in text:
-        return "miri-tree-borrows-osu-gradual-by-value"
     return ""
 
 
